@@ -44,6 +44,7 @@ type boundsEngine struct {
 	pathLoads []*ssa.UnOp // loads named by path while building the current term (path mode)
 	entryMemo map[*ssa.Function][]fact
 	bsMemo    map[*ssa.Function][]bsLoop
+	closMemo  map[*ssa.Function][]fact
 }
 
 func newBoundsEngine(p *core.Prog) *boundsEngine {
@@ -430,6 +431,7 @@ func (e *boundsEngine) dominatingFacts(b *ssa.BasicBlock) []fact {
 	out := append([]fact{}, e.entryFacts(b.Parent())...)
 	out = append(out, e.idiomFacts(b.Parent())...)
 	out = append(out, e.searchClosureFacts(b.Parent())...)
+	out = append(out, e.closureCallFacts(b.Parent())...)
 	for d := b; d != nil; d = d.Idom() {
 		id := d.Idom()
 		if id == nil {
@@ -776,7 +778,7 @@ func (e *boundsEngine) clobbered(deps []string, from *ssa.BasicBlock, after ssa.
 				}
 				if c.Parent() != nil {
 					for d := range want {
-						if strings.HasPrefix(d, "var:") {
+						if strings.HasPrefix(d, "var:") && closureMayWriteVar(c, strings.TrimPrefix(d, "var:"), 0) {
 							return true
 						}
 					}
@@ -1186,6 +1188,10 @@ func (e *boundsEngine) leq(a, b lin, k int64, facts []fact, use ssa.Instruction)
 	need := k - a.off + b.off // a.term - b.term <= need
 	if a.term == b.term {
 		return 0 <= need
+	}
+	// a constant against a length: -len(x) <= 0 <= need
+	if a.term == "" && (strings.HasPrefix(b.term, "len(") || strings.HasPrefix(b.term, "cap(")) && need >= 0 {
+		return true
 	}
 	for _, f := range facts {
 		if f.a.term == a.term && f.b.term == b.term && f.k <= need {
@@ -1839,4 +1845,209 @@ func (e *boundsEngine) searchClosureFacts(fn *ssa.Function) []fact {
 		{a: lin{i.term, 0, nil, true}, b: lin{term, 0, deps, true}, k: -1 + N.off*0 - 0 + N.off, at: at, deps: deps},
 		{a: lin{"", 0, nil, true}, b: lin{i.term, 0, nil, true}, k: 0, at: at},
 	}
+}
+
+// closureCallFacts: a function literal that is only ever called directly from its parent (never stored, passed
+// on or deferred) is entered only from those call sites: a fact relating an argument to other values that
+// holds at every call site holds for the parameter at the literal's entry. Terms of the parent are renamed
+// into the literal's own names (captured variables keep their names); facts that mention parent-only values
+// are dropped.
+func (e *boundsEngine) closureCallFacts(fn *ssa.Function) []fact {
+	if fn == nil || fn.Parent() == nil || len(fn.Params) == 0 || !e.pathMode || len(fn.Blocks) == 0 {
+		return nil
+	}
+	if e.closMemo == nil {
+		e.closMemo = map[*ssa.Function][]fact{}
+	}
+	if v, ok := e.closMemo[fn]; ok {
+		return v
+	}
+	e.closMemo[fn] = nil
+	parent := fn.Parent()
+	var mc *ssa.MakeClosure
+	var sites []*ssa.Call
+	for _, b := range parent.Blocks {
+		for _, in := range b.Instrs {
+			m, ok := in.(*ssa.MakeClosure)
+			if !ok || m.Fn != ssa.Value(fn) {
+				continue
+			}
+			if mc != nil {
+				return nil
+			}
+			mc = m
+		}
+	}
+	if mc == nil {
+		return nil
+	}
+	for _, ref := range core.Referrers(mc) {
+		switch x := ref.(type) {
+		case *ssa.DebugRef:
+		case *ssa.Call:
+			if x.Call.Value != ssa.Value(mc) {
+				return nil // passed as an argument
+			}
+			sites = append(sites, x)
+		default:
+			return nil
+		}
+	}
+	if len(sites) == 0 {
+		return nil
+	}
+	rename := func(term string, deps []string) (string, []string, bool) {
+		for i, bnd := range mc.Bindings {
+			if a, ok := bnd.(*ssa.Alloc); ok && i < len(fn.FreeVars) {
+				term = strings.ReplaceAll(term, "&"+a.Name()+"@"+parent.Name(), "fv:"+fn.FreeVars[i].Name())
+			}
+		}
+		if strings.Contains(term, "@"+parent.Name()) {
+			return "", nil, false
+		}
+		var nd []string
+		for _, d := range deps {
+			if strings.HasPrefix(d, "var:") {
+				done := false
+				for i, bnd := range mc.Bindings {
+					if a, ok := bnd.(*ssa.Alloc); ok && i < len(fn.FreeVars) && d == "var:"+a.Name() {
+						nd = append(nd, "var:fv:"+fn.FreeVars[i].Name())
+						done = true
+					}
+				}
+				if !done {
+					return "", nil, false
+				}
+				continue
+			}
+			nd = append(nd, d)
+		}
+		return term, nd, true
+	}
+	type key struct{ a, b string }
+	var acc map[key]fact
+	for _, site := range sites {
+		here := map[key]fact{}
+		put := func(a, b lin, k int64) {
+			kk := key{a.term, b.term}
+			if old, ok := here[kk]; !ok || k < old.k {
+				here[kk] = fact{a: a, b: b, k: k, deps: append(append([]string{}, a.deps...), b.deps...)}
+			}
+		}
+		var facts []fact
+		for _, mode := range []bool{false, true} {
+			e.pathMode = mode
+			facts = append(facts, e.dominatingFacts(site.Block())...)
+		}
+		e.pathMode = true
+		for j, par := range fn.Params {
+			if !isIntType(par.Type()) || j >= len(site.Call.Args) {
+				continue
+			}
+			pl := e.linOf(par)
+			for _, mode := range []bool{false, true} {
+				e.pathMode = mode
+				L := e.linOf(site.Call.Args[j])
+				e.pathMode = true
+				if !L.ok {
+					continue
+				}
+				if L.term == "" {
+					put(lin{pl.term, 0, nil, true}, lin{"", 0, nil, true}, L.off)
+					put(lin{"", 0, nil, true}, lin{pl.term, 0, nil, true}, -L.off)
+					continue
+				}
+				for _, f := range facts {
+					if e.factClobbered(f, site) {
+						continue
+					}
+					if f.a.term == L.term {
+						// arg - off - b <= k  =>  par - b <= k + off
+						if bt, bd, ok := rename(f.b.term, f.b.deps); ok {
+							put(lin{pl.term, 0, nil, true}, lin{bt, 0, bd, true}, f.k+L.off)
+						}
+					}
+					if f.b.term == L.term {
+						// a - (arg - off) <= k  =>  a - par <= k - off
+						if at, ad, ok := rename(f.a.term, f.a.deps); ok {
+							put(lin{at, 0, ad, true}, lin{pl.term, 0, nil, true}, f.k-L.off)
+						}
+					}
+				}
+			}
+		}
+		if acc == nil {
+			acc = here
+			continue
+		}
+		for kk, f := range acc {
+			g, ok := here[kk]
+			if !ok {
+				delete(acc, kk)
+				continue
+			}
+			if g.k > f.k {
+				f.k = g.k
+				acc[kk] = f
+			}
+		}
+	}
+	var out []fact
+	for _, f := range acc {
+		f.at = fn.Blocks[0]
+		f.loads = nil
+		out = append(out, f)
+	}
+	sort.Slice(out, func(i, j int) bool { return out[i].a.term+"|"+out[i].b.term < out[j].a.term+"|"+out[j].b.term })
+	e.closMemo[fn] = out
+	return out
+}
+
+// closureMayWriteVar: may the function literal c (or a literal it creates or calls) assign the captured variable name?
+// Unknown calls inside it are taken as writers.
+func closureMayWriteVar(c *ssa.Function, name string, depth int) bool {
+	if depth > 3 {
+		return true
+	}
+	name = strings.TrimPrefix(name, "fv:")
+	captured := false
+	for _, fv := range c.FreeVars {
+		if fv.Name() == name {
+			captured = true
+		}
+	}
+	if !captured {
+		return false // the literal has no access to that variable
+	}
+	for _, b := range c.Blocks {
+		for _, in := range b.Instrs {
+			switch x := in.(type) {
+			case *ssa.Store:
+				for a := x.Addr; ; {
+					switch y := a.(type) {
+					case *ssa.FieldAddr:
+						a = y.X
+						continue
+					case *ssa.FreeVar:
+						if y.Name() == name {
+							return true
+						}
+					}
+					break
+				}
+			case *ssa.MakeClosure:
+				if inner, ok := x.Fn.(*ssa.Function); ok && closureMayWriteVar(inner, name, depth+1) {
+					return true
+				}
+			case ssa.CallInstruction:
+				// the variable's address handed to someone else
+				for _, a := range x.Common().Args {
+					if fv, ok := a.(*ssa.FreeVar); ok && fv.Name() == name {
+						return true
+					}
+				}
+			}
+		}
+	}
+	return false
 }
